@@ -10,6 +10,8 @@ from __future__ import annotations
 
 import itertools
 
+from entity_query_language import an, set_of
+
 from .. import qast as Q
 from ..common import X, A, L, V, eval_rows, diff_rows, row_labels, is_exc, exc_obs, root_kind
 from ..isolate import run_isolated
@@ -92,6 +94,12 @@ def cases(tier, inst):
                 for dom in sub_doms:
                     for caching in ((True, False) if place == "alone" else (True,)):
                         yield ("subq", sk, t, place, dom, caching)
+    # the condition CONTAINS a sub-query with a variable of its own (for every u there is a w ...; a the(...) operand), or is
+    # an object that another query - built afterwards, never evaluated - uses as well
+    for kind in SUBC:
+        for place in ("alone", "before", "after"):
+            for dom in sub_doms[:8]:
+                yield ("subc", kind, place, dom, True)
     # TWO universal conditions next to each other whose universals are expressions of the SAME variable (u.q and u.q, u.q
     # and u): the variable is quantified in each of them, what the other one ranges over does not make it a free variable
     la, lv_ = leaves("attr"), [leaves("var")[i] for i in (0, 1, 4, 6)]
@@ -171,7 +179,27 @@ def subq_parts(case):
     return outer, scond, S
 
 
+_the_w = ("sub1", ("Q", "the", "entity", W_, (("cmp", "eq", A(W_, "p"), L(2)),), (VW,)))
+SUBC = {
+    # name: (condition as built, python oracle of the condition for (x, u, W))
+    "exists": (("sq", ("Q", "an", "entity", W_, (("cmp", "eq", A(W_, "p"), A(U, "p")),), (VW,))),
+               lambda x, u, ws, v: any(w.p == u.p for w in ws)),
+    "exists_x": (("sq", ("Q", "an", "entity", W_, (("cmp", "eq", A(W_, "p"), A(U, "p")), ("cmp", "le", A(W_, "q"), A(X, "q"))), (VW,))),
+                 lambda x, u, ws, v: any(w.p == u.p and w.q <= x.q for w in ws)),
+    "the": (("or", ("cmp", "gt", A(X, "p"), A(_the_w, "q")), ("cmp", "ge", A(X, "q"), A(U, "q"))),
+            lambda x, u, ws, v: x.p > [w for w in ws if w.p == v(2)][0].q or x.q >= u.q),
+    "shared": (("or", ("cmp", "ge", A(X, "q"), L(2)), ("cmp", "ge", A(X, "p"), A(U, "p"))),
+               lambda x, u, ws, v: x.q >= v(2) or x.p >= u.p),
+}
+
+
 def query_of(case):
+    if case[0] == "subc":
+        _, kind, place, dom, caching = case
+        fa = ("fa", U, SUBC[kind][0])
+        other = ("cmp", "le", A(X, "p"), L(2))
+        conds = {"alone": (fa,), "before": (("andf", other, fa),), "after": (("andf", fa, other),)}[place]
+        return ("Q", "an", "setof", (X,), conds, (VX,))
     if case[0] == "sib":
         _, conn, kind, t1, t2, dom, caching = case
         second = A(U, "q") if kind == "qq" else U
@@ -205,6 +233,8 @@ def query_of(case):
 
 
 def wspec_of(case):
+    if case[0] == "subc":
+        return (("F", "Item", FREE), ("U", "Item", case[3]), ("W", "Item", WROWS))
     if case[0] == "sib":
         return (("F", "Item", FREE), ("U", "Item", case[5]))
     if case[0] == "corr":
@@ -336,7 +366,48 @@ def run_sib(case, inst):
     return res
 
 
+def run_subc(case, inst):
+    _, kind, place, dom, caching = case
+    q = query_of(case)
+
+    def body():
+        world = build_world(wspec_of(case), inst)
+        holds = SUBC[kind][1]
+        exp = [(x,) for x in world["F"] if (place == "alone" or x.p <= inst.v(2))
+               and all(holds(x, u, world["W"], inst.v) for u in world["U"])]
+        try:
+            from entity_query_language import symbolic_mode
+            b = Q.Builder(world, inst, share_conds="ops" if kind == "shared" else False)
+            with symbolic_mode():
+                b.declare((VU,))
+                obj = b.query(q)
+                if kind == "shared":
+                    # another query that uses the condition object of the for_all; it is never evaluated
+                    other = an(set_of([b.env["x"]], b.cond(SUBC[kind][0])))
+            sel = b.sel[q]
+            got1 = [tuple(r[s_] for s_ in sel) for r in obj.evaluate()]
+        except Exception as e:
+            return exc_obs(e), None, exp
+        try:
+            got2 = [tuple(r[s_] for s_ in sel) for r in obj.evaluate()]
+        except Exception as e:
+            got2 = exc_obs(e)
+        return got1, got2, exp
+
+    got1, got2, exp = run_isolated(body, caching=caching)
+    res = {"ok": True, "nontrivial": 0 < len(exp) < len(FREE), "transitions": 2,
+           "tags": [f"uform=subc-{kind}", f"place={place}", "caching=on", f"urows={len(dom)}"], "outcome": str(len(exp))}
+    for name, got in (("eval1", got1), ("eval2", got2)):
+        d = diff_rows(got, exp, count=True)
+        if d is not None:
+            res.update(ok=False, sig=f"{name}:{d}/subc-{kind}-{place}", obs=(name, row_labels(got)), exp=row_labels(exp))
+            break
+    return res
+
+
 def run_case(case, inst):
+    if case[0] == "subc":
+        return run_subc(case, inst)
     if case[0] == "sib":
         return run_sib(case, inst)
     if case[0] == "corr":
@@ -391,6 +462,13 @@ def run_case(case, inst):
 
 
 def describe(case, inst):
+    if case[0] == "subc":
+        return ("enable_caching()\n" + Q.up_world(wspec_of(case), inst) + "\nwith symbolic_mode(): u = let(Item, U)\n"
+                + Q.up_query(query_of(case), inst)
+                + ("\nwith symbolic_mode(): other = an(set_of([x], <the condition object of the for_all>))   # built, never evaluated"
+                   if case[1] == "shared" else "")
+                + "\nrows1 = list(q.evaluate()); rows2 = list(q.evaluate())"
+                  "\n# expected: {x | all(c(x, u) for u in U)}; a sub-query inside c looks for its own solutions under every u")
     if case[0] == "sib":
         return ("enable_caching()\n" + Q.up_world(wspec_of(case), inst) + "\nwith symbolic_mode(): u = let(Item, U)\n"
                 + Q.up_query(query_of(case), inst)
